@@ -196,8 +196,11 @@ func (v *vdrRun) moreShapes(job *TAJob, stage *syntax.Stage, params []*syntax.Ou
 			}
 			i := strings.LastIndex(t, "/")
 			switch k := rng.Intn(3); {
-			case k == 0 && st.IsDir():
+			case k <= 1 && st.IsDir():
 				v.hist("shape-output-spelled-with-trailing-separator")
+				if rng.Intn(3) == 0 {
+					return t + "//"
+				}
 				return t + "/"
 			case k == 1:
 				v.hist("shape-output-spelled-with-doubled-separator")
